@@ -1,6 +1,7 @@
 package props
 
 import (
+	"encoding/base64"
 	"fmt"
 	"os"
 	"strings"
@@ -122,6 +123,13 @@ func c20Scenario() (choice.Scenario, func() any) {
 			t.Put(mcbor.I(-75000), mcbor.T("PSA_IOT_PROFILE_1"))
 			return mcbor.Encode(t)
 		}),
+		inPayload("derived-profile-map+trailing-byte", eBad, func() []byte {
+			return append(c20ClaimsVariant(base.payload, ExtP2Name, 0, false), 0x00)
+		}),
+		inPayload("derived-profile-map+trailing-map", eBad, func() []byte {
+			return append(c20ClaimsVariant(base.payload, ExtP2Name, 0, false), 0xa0)
+		}),
+		inPayload("derived-profile-map", eOK, func() []byte { return c20ClaimsVariant(base.payload, ExtP2Name, 0, false) }),
 		inPayload("derived-profile-map-without-its-mandatory-components", eBad, func() []byte {
 			t, _ := mcbor.DecodeAll(c20ClaimsVariant(base.payload, ExtP2Name, 0, false))
 			for i, p := range t.Pairs {
@@ -186,6 +194,18 @@ func c20Scenario() (choice.Scenario, func() any) {
 		tagOpt{"18(18())", eBad, func(n *mcbor.Node) *mcbor.Node { return mcbor.Tg(18, mcbor.Tg(18, n)) }},
 		tagOpt{"55799(18())", eBad, func(n *mcbor.Node) *mcbor.Node { return mcbor.Tg(55799, mcbor.Tg(18, n)) }},
 		tagOpt{"18(55799())", eBad, func(n *mcbor.Node) *mcbor.Node { return mcbor.Tg(18, mcbor.Tg(55799, n)) }},
+		tagOpt{"base64-text-of-the-token", eBad, func(n *mcbor.Node) *mcbor.Node {
+			return mcbor.RawBytes([]byte(base64.StdEncoding.EncodeToString(mcbor.Encode(mcbor.Tg(18, n)))))
+		}},
+		tagOpt{"base64url-text-of-the-token", eBad, func(n *mcbor.Node) *mcbor.Node {
+			return mcbor.RawBytes([]byte(base64.RawURLEncoding.EncodeToString(mcbor.Encode(mcbor.Tg(18, n)))))
+		}},
+		tagOpt{"hex-text-of-the-token", eBad, func(n *mcbor.Node) *mcbor.Node {
+			return mcbor.RawBytes([]byte(fmt.Sprintf("%x", mcbor.Encode(mcbor.Tg(18, n)))))
+		}},
+		tagOpt{"tstr(base64-of-the-token)", eBad, func(n *mcbor.Node) *mcbor.Node {
+			return mcbor.T(base64.StdEncoding.EncodeToString(mcbor.Encode(mcbor.Tg(18, n))))
+		}},
 		tagOpt{"bstr(18())", eBad, func(n *mcbor.Node) *mcbor.Node { return mcbor.B(mcbor.Encode(mcbor.Tg(18, n))) }},
 		tagOpt{"24(bstr(18()))", eBad, func(n *mcbor.Node) *mcbor.Node { return mcbor.Tg(24, mcbor.B(mcbor.Encode(mcbor.Tg(18, n)))) }},
 		tagOpt{"[18()]", eBad, func(n *mcbor.Node) *mcbor.Node { return mcbor.A(mcbor.Tg(18, n)) }},
